@@ -4,6 +4,9 @@
 //	c17 facts  -extra <repo>   structural facts of circuit/{garble,circuit,eval,computer}.go
 //	c17 stress -seed S -n N    N rounds of concurrent Garble/Eval/Compute/Release on one
 //	                           shared circuit; built with and without -race by checks/C17.py
+//	c17 gchist -seed S -n N    N GC histories on one shared circuit (gchist.go): garblings of
+//	                           which the caller keeps only the data, forced collections,
+//	                           further Garble calls, re-reading / evaluating the retained data
 //
 // Every round logs its pool events in one total order and emits them as one
 // op line (`c17 trace ...`) whose verdict the Lean model driver recomputes.
@@ -20,6 +23,7 @@ import (
 	"sync"
 	"sync/atomic"
 	"time"
+	"unsafe"
 
 	"github.com/markkurossi/mpc/circuit"
 	"github.com/markkurossi/mpc/ot"
@@ -29,7 +33,7 @@ import (
 
 func main() {
 	if len(os.Args) < 2 {
-		fmt.Fprintln(os.Stderr, "usage: c17 facts|stress [flags]")
+		fmt.Fprintln(os.Stderr, "usage: c17 facts|stress|gchist|contract [flags]")
 		os.Exit(2)
 	}
 	switch os.Args[1] {
@@ -39,6 +43,8 @@ func main() {
 		os.Exit(stressMain(os.Args[2:]))
 	case "contract":
 		os.Exit(contractMain(os.Args[2:]))
+	case "gchist":
+		os.Exit(gcMain(os.Args[2:]))
 	default:
 		fmt.Fprintf(os.Stderr, "unknown mode %q\n", os.Args[1])
 		os.Exit(2)
@@ -144,16 +150,22 @@ func (d gdigest) diff(e gdigest) string {
 }
 
 func digestGarbled(g *circuit.Garbled, def []bool) gdigest {
+	return digestParts(g.R, g.Wires, g.Gates, def)
+}
+
+// digestParts digests a garbling given by its parts (what a caller that keeps
+// only g.R / g.Wires / g.Gates holds).
+func digestParts(r ot.Label, wires []ot.Wire, gates [][]ot.Label, def []bool) gdigest {
 	d := gdigest{fnvOff, fnvOff, fnvOff}
-	d.r = mixLabel(d.r, g.R)
-	d.w = mix(d.w, uint64(len(g.Wires)))
-	for w := range g.Wires {
+	d.r = mixLabel(d.r, r)
+	d.w = mix(d.w, uint64(len(wires)))
+	for w := range wires {
 		if w < len(def) && def[w] {
-			d.w = mixLabel(mixLabel(d.w, g.Wires[w].L0), g.Wires[w].L1)
+			d.w = mixLabel(mixLabel(d.w, wires[w].L0), wires[w].L1)
 		}
 	}
-	d.t = mix(d.t, uint64(len(g.Gates)))
-	for _, rows := range g.Gates {
+	d.t = mix(d.t, uint64(len(gates)))
+	for _, rows := range gates {
 		d.t = mix(d.t, uint64(len(rows)))
 		for _, l := range rows {
 			d.t = mixLabel(d.t, l)
@@ -306,6 +318,26 @@ type handle struct {
 	g   *circuit.Garbled
 	id  int64
 	job int
+	// GC histories (gchist.go): the parts of the garbling the caller keeps
+	// (copies of the slice headers g.Wires / g.Gates, and R); dropped: the
+	// *Garbled header itself has been let go (g == nil)
+	r       ot.Label
+	wires   []ot.Wire
+	gates   [][]ot.Label
+	dropped bool
+	// position in the history at which the garbling was made; stage: 0 made,
+	// 1 a collection has happened since, 2 and a Garble call after that
+	born  int
+	stage int
+}
+
+// parts: what the holder of the garbling reads: through the header while it
+// has one, through the retained slices after it dropped the header.
+func (h *handle) parts() (ot.Label, []ot.Wire, [][]ot.Label) {
+	if h.dropped {
+		return h.r, h.wires, h.gates
+	}
+	return h.g.R, h.g.Wires, h.g.Gates
 }
 
 type event struct {
@@ -334,6 +366,14 @@ type round struct {
 	seed    uint64
 	arrived atomic.Int32
 	need    int32
+	// GC histories: a scratch object is identified by the address of the wire
+	// buffer g.Wires aliases (kept alive by the retained slices), not by the
+	// address of the scratch struct (which dies with the header in a tree that
+	// does not pool it, so its address could be recycled)
+	idByBuf bool
+	mode    string // harness mode for the replay command
+	n       int
+	hist    string // GC histories: the rendered history of the case
 }
 
 func (rd *round) fail(sig string, d map[string]any) {
@@ -341,7 +381,14 @@ func (rd *round) fail(sig string, d map[string]any) {
 	defer rd.mu.Unlock()
 	d["round"] = rd.idx
 	d["kind"] = rd.kind
-	d["replay"] = fmt.Sprintf("c17 stress -seed %d -only %d", rd.seed, rd.idx)
+	mode := rd.mode
+	if mode == "" {
+		mode = "stress"
+	}
+	d["replay"] = fmt.Sprintf("c17 %s -seed %d -n %d -only %d", mode, rd.seed, rd.n, rd.idx)
+	if rd.hist != "" {
+		d["history"] = rd.hist
+	}
 	if len(rd.fails) < 8 {
 		d["sig"] = sig
 		rd.fails = append(rd.fails, d)
@@ -358,6 +405,7 @@ type worker struct {
 	// wall-clock interval of this goroutine's first Garble call (coverage:
 	// how many goroutines were inside the lazy pool creation together)
 	t0, t1 int64
+	gcs    int // collections forced by this goroutine
 }
 
 func (w *worker) log(kind byte, h int64, s, p uintptr, d uint64) {
@@ -396,6 +444,9 @@ func (w *worker) garble() {
 		return
 	}
 	s, p, ok := garbledIDs(g)
+	if rd.idByBuf && len(g.Wires) > 0 {
+		s = uintptr(unsafe.Pointer(unsafe.SliceData(g.Wires)))
+	}
 	d := digestGarbled(g, rd.def)
 	h := &handle{g: g, id: rd.hctr.Add(1), job: ji}
 	if ok {
@@ -421,12 +472,13 @@ func (w *worker) verify() {
 	if h == nil {
 		return
 	}
-	d := digestGarbled(h.g, w.rd.def)
+	r, wires, gates := h.parts()
+	d := digestParts(r, wires, gates, w.rd.def)
 	w.log('V', h.id, 0, 0, d.one())
 	if d != w.rd.jobs[h.job].exp {
 		w.rd.fail("c17-live-handle-changed", map[string]any{"t": w.t, "job": h.job,
-			"differs": d.diff(w.rd.jobs[h.job].exp),
-			"what":    "the data of an unreleased Garbled changed while other goroutines were garbling"})
+			"differs": d.diff(w.rd.jobs[h.job].exp), "header_dropped": h.dropped,
+			"what": "the data of an unreleased Garbled changed while other goroutines were garbling"})
 	}
 }
 
@@ -467,7 +519,8 @@ func (w *worker) evalLive() {
 	if h == nil {
 		return
 	}
-	w.evalWith(h.job, h.g.Wires, h.g.Gates, h.g.Wires, "tables-of-live-handle")
+	_, wires, gates := h.parts()
+	w.evalWith(h.job, wires, gates, wires, "tables-of-live-handle")
 	w.log('C', 0, 0, 0, 0)
 }
 
@@ -486,10 +539,41 @@ func (w *worker) release(i int, h *handle) {
 
 func (w *worker) releaseSome() {
 	i, h := w.pick()
-	if h == nil {
+	if h == nil || h.dropped { // no header, no Release: the garbling keeps its scratch
 		return
 	}
 	w.release(i, h)
+}
+
+// dropHeader: keep what a protocol round keeps of a garbling (R and the two
+// slices) and let the *Garbled header go.
+func (w *worker) dropHeader() {
+	_, h := w.pick()
+	if h == nil || h.dropped {
+		return
+	}
+	h.r, h.wires, h.gates = h.g.R, h.g.Wires, h.g.Gates
+	w.log('D', h.id, 0, 0, 0)
+	h.g = nil
+	h.dropped = true
+}
+
+// collect forces a collection (at most twice per goroutine and round) and
+// lets the runtime's finalizer goroutine run.
+func (w *worker) collect() {
+	if w.gcs >= 2 {
+		return
+	}
+	w.gcs++
+	runtime.GC()
+	if w.rng.Bool() {
+		runtime.GC()
+	}
+	runtime.Gosched()
+	if w.rng.Bool() {
+		time.Sleep(time.Millisecond)
+	}
+	w.log('K', 0, 0, 0, 0)
 }
 
 // evalCopyRelease copies the tables and wire pairs out (as a serialiser
@@ -497,7 +581,7 @@ func (w *worker) releaseSome() {
 // from the copies.
 func (w *worker) evalCopyRelease() {
 	i, h := w.pick()
-	if h == nil {
+	if h == nil || h.dropped {
 		return
 	}
 	tables := make([][]ot.Label, len(h.g.Gates))
@@ -620,6 +704,10 @@ func (w *worker) op(k int) {
 		w.nilRelease()
 	case 11:
 		w.handoff()
+	case 12:
+		w.dropHeader()
+	case 13:
+		w.collect()
 	}
 }
 
@@ -645,15 +733,35 @@ func (w *worker) run(start chan struct{}, script func(w *worker)) {
 
 // ---------------------------------------------------------------- scripts
 
-func scriptMixed(nops int) func(w *worker) {
+func scriptMixed(nops int) func(w *worker) { return scriptOps(nops, 12) }
+
+// scriptGCMixed: the mixed script with two more operations: drop the header of
+// a live garbling (keep its data), force a collection.
+func scriptGCMixed(nops int) func(w *worker) { return scriptOps(nops, 14) }
+
+func scriptOps(nops, kinds int) func(w *worker) {
 	return func(w *worker) {
 		for i := 0; i < nops; i++ {
-			w.op(w.rng.Intn(12))
+			w.op(w.rng.Intn(kinds))
 			w.yield()
 		}
 		// release most of what is left (Release is optional)
-		for len(w.live) > 0 && w.rng.Intn(4) != 0 {
+		for k := 0; k < 64 && len(w.live) > 0 && w.rng.Intn(4) != 0; k++ {
 			w.releaseSome()
+		}
+		// and re-read what was kept without a header
+		for _, h := range w.live {
+			if h.dropped {
+				r, wires, gates := h.parts()
+				d := digestParts(r, wires, gates, w.rd.def)
+				w.log('V', h.id, 0, 0, d.one())
+				if d != w.rd.jobs[h.job].exp {
+					w.rd.fail("c17-retained-garbling-changed", map[string]any{"t": w.t, "job": h.job,
+						"differs": d.diff(w.rd.jobs[h.job].exp), "retention": retention(h),
+						"what": "the data (R / Wires / Gates) of a garbling that was never released differs from " +
+							"the snapshot taken when Garble returned"})
+				}
+			}
 		}
 	}
 }
@@ -736,9 +844,10 @@ func checkTrace(evs []event) (string, string, string) {
 	pools := map[uintptr]int{}
 	hid := map[int64]int{}
 	type hst struct {
-		live bool
-		s    int
-		d    uint64
+		live    bool
+		dropped bool
+		s       int
+		d       uint64
 	}
 	var hs []hst
 	owner := map[int]int{} // scratch -> live handle
@@ -751,7 +860,7 @@ func checkTrace(evs []event) (string, string, string) {
 			kind = k
 		}
 	}
-	var reused, maxLive, live, releases, noops, aborts, verifies, anyPool int
+	var reused, maxLive, live, releases, noops, aborts, verifies, anyPool, drops, collects int
 	for i, e := range evs {
 		switch e.kind {
 		case 'G':
@@ -770,7 +879,7 @@ func checkTrace(evs []event) (string, string, string) {
 				}
 				reused++
 			}
-			hs = append(hs, hst{true, s, e.d})
+			hs = append(hs, hst{live: true, s: s, d: e.d})
 			owner[s] = h
 			live++
 			if live > maxLive {
@@ -790,7 +899,9 @@ func checkTrace(evs []event) (string, string, string) {
 		case 'R':
 			h, ok := hid[e.h]
 			fmt.Fprintf(&sb, " R:%d:%d", e.t, h)
-			if !ok {
+			if ok && hs[h].dropped {
+				reject(i, "release-of-dropped")
+			} else if !ok {
 				reject(i, "unknown-handle")
 			} else if !hs[h].live {
 				reject(i, "release-of-released")
@@ -805,7 +916,9 @@ func checkTrace(evs []event) (string, string, string) {
 		case 'Q':
 			h, ok := hid[e.h]
 			fmt.Fprintf(&sb, " Q:%d:%d", e.t, h)
-			if !ok {
+			if ok && hs[h].dropped {
+				reject(i, "release-of-dropped")
+			} else if !ok {
 				reject(i, "unknown-handle")
 			} else if hs[h].live {
 				reject(i, "second-release-of-live")
@@ -817,6 +930,21 @@ func checkTrace(evs []event) (string, string, string) {
 			aborts++
 		case 'C':
 			fmt.Fprintf(&sb, " C:%d", e.t)
+		case 'D':
+			// the header of an unreleased garbling is dropped, its data kept: the
+			// garbling stays live (it still owns its scratch) and can never be released
+			h, ok := hid[e.h]
+			fmt.Fprintf(&sb, " D:%d:%d", e.t, h)
+			if !ok || !hs[h].live || hs[h].dropped {
+				reject(i, "drop-not-allowed")
+			} else {
+				hs[h].dropped = true
+				drops++
+			}
+		case 'K':
+			// forced collections: nothing of the pool protocol may happen
+			fmt.Fprintf(&sb, " K:%d", e.t)
+			collects++
 		}
 		if verdict != "" {
 			// the model stops at the first rejected event; keep the op line complete
@@ -824,8 +952,8 @@ func checkTrace(evs []event) (string, string, string) {
 		}
 	}
 	if verdict == "" {
-		verdict = fmt.Sprintf("ok pools=%d scratch=%d handles=%d reused=%d maxlive=%d live=%d releases=%d noops=%d aborts=%d verifies=%d",
-			anyPool, len(scr), len(hs), reused, maxLive, live, releases, noops, aborts, verifies)
+		verdict = fmt.Sprintf("ok pools=%d scratch=%d handles=%d reused=%d maxlive=%d live=%d releases=%d noops=%d aborts=%d verifies=%d dropped=%d collects=%d",
+			anyPool, len(scr), len(hs), reused, maxLive, live, releases, noops, aborts, verifies, drops, collects)
 	}
 	return sb.String(), verdict, kind
 }
@@ -837,7 +965,7 @@ func stressMain(args []string) int {
 	defer o.Close()
 	rng := hxlib.NewRng(cf.Seed)
 	o.Meta["observe"] = obs.desc
-	kinds := []string{"first", "mixed", "first", "hold", "mixed", "first", "seq", "mixed", "errpath", "first"}
+	kinds := []string{"first", "mixed", "first", "hold", "mixed", "first", "seq", "mixed", "errpath", "first", "gcmix"}
 	progress := cf.Meta + ".progress"
 	for i := 0; i < cf.N; i++ {
 		r := rng.Fork()
@@ -864,59 +992,11 @@ func runRound(o *hxlib.Out, cf *hxlib.CommonFlags, r *hxlib.Rng, idx int, kind s
 	if cf.Tier == "thorough" && kind != "first" {
 		maxGates = 800
 	}
-	mixes := []string{"uniform", "and", "orinv", "xnor"}
-	c := hxlib.GenCircuit(r, hxlib.GenOpts{MaxGates: maxGates, MaxIn: 5, Mix: mixes[r.Intn(len(mixes))], AllowReuse: r.Intn(3) == 0})
-	rd := &round{idx: idx, kind: kind, c: c, seed: cf.Seed, handoff: make(chan *handle, 4)}
-	rd.def = definedWires(c)
-	nin := c.Inputs.Size()
-	rd.x = make([]bool, nin)
-	for i := range rd.x {
-		rd.x[i] = r.Bool()
-	}
-	rd.ref = hxlib.RefEval(c, rd.x)
-	n0 := int(c.Inputs[0].Type.Bits)
-	rd.inputs = []*big.Int{bitsToBig(rd.x[:n0]), bitsToBig(rd.x[n0:])}
-
-	// single-goroutine reference results, on an independent Circuit value so
-	// that the shared one is untouched until the goroutines start
-	ref := cloneCircuit(c)
-	njobs := 2 + r.Intn(5)
-	keySizes := []int{16, 24, 32}
-	refOK := true
-	for j := 0; j < njobs; j++ {
-		jb := &job{tape: r.Bytes(16 * (1 + nin)), key: r.Bytes(keySizes[r.Intn(3)])}
-		func() {
-			defer func() {
-				if e := recover(); e != nil {
-					refOK = false
-					o.Fail("c17-reference-panic", map[string]any{"round": idx, "panic": fmt.Sprint(e)})
-				}
-			}()
-			g, err := ref.Garble(&hxlib.Tape{Data: jb.tape}, jb.key)
-			if err != nil {
-				refOK = false
-				o.Fail("c17-reference-error", map[string]any{"round": idx, "err": err.Error()})
-				return
-			}
-			jb.exp = digestGarbled(g, rd.def)
-			ws := make([]ot.Label, c.NumWires)
-			for i := 0; i < nin; i++ {
-				ws[i] = circuit.LabelForBit(g.Wires[i], rd.x[i])
-			}
-			if err := ref.Eval(jb.key, ws, g.Gates); err != nil {
-				refOK = false
-				o.Fail("c17-reference-error", map[string]any{"round": idx, "err": err.Error()})
-				return
-			}
-			jb.eval = digestLabels(ws, rd.def)
-			g.Release()
-		}()
-		rd.jobs = append(rd.jobs, jb)
-	}
-	if !refOK {
+	rd := newRound(o, cf, r, idx, kind, maxGates)
+	if rd == nil {
 		return
 	}
-
+	c := rd.c
 	var ng int
 	var script func(w *worker)
 	switch kind {
@@ -926,6 +1006,12 @@ func runRound(o *hxlib.Out, cf *hxlib.CommonFlags, r *hxlib.Rng, idx int, kind s
 	case "mixed":
 		ng = 2 + r.Intn(10)
 		script = scriptMixed(6 + r.Intn(20))
+	case "gcmix":
+		// header drops and collections inside a concurrent round; scratch identity by
+		// buffer address (the scratch struct of a dropped garbling dies with its header)
+		rd.idByBuf = true
+		ng = 2 + r.Intn(6)
+		script = scriptGCMixed(8 + r.Intn(16))
 	case "hold":
 		ng = 3 + r.Intn(5)
 		script = scriptHold(8 + r.Intn(10))
@@ -956,7 +1042,13 @@ func runRound(o *hxlib.Out, cf *hxlib.CommonFlags, r *hxlib.Rng, idx int, kind s
 	}
 	close(start)
 	wg.Wait()
+	finishRound(o, rd, ws, ng)
+}
 
+// finishRound merges the workers' event logs, judges the trace, emits the op
+// line and the round's failures and counters.
+func finishRound(o *hxlib.Out, rd *round, ws []*worker, ng int) {
+	c, idx, kind := rd.c, rd.idx, rd.kind
 	var evs []event
 	minEnd := int64(0)
 	for _, w := range ws {
@@ -1025,6 +1117,65 @@ func runRound(o *hxlib.Out, cf *hxlib.CommonFlags, r *hxlib.Rng, idx int, kind s
 		o.Sample(map[string]any{"round": idx, "kind": kind, "goroutines": ng, "gates": len(c.Gates),
 			"events": len(evs), "verdict": verdict})
 	}
+}
+
+// newRound generates the shared circuit of a round, its input, and the
+// single-goroutine reference results of its jobs (tape, key).  nil: the
+// reference run itself failed (reported).
+func newRound(o *hxlib.Out, cf *hxlib.CommonFlags, r *hxlib.Rng, idx int, kind string, maxGates int) *round {
+	mixes := []string{"uniform", "and", "orinv", "xnor"}
+	c := hxlib.GenCircuit(r, hxlib.GenOpts{MaxGates: maxGates, MaxIn: 5, Mix: mixes[r.Intn(len(mixes))], AllowReuse: r.Intn(3) == 0})
+	rd := &round{idx: idx, kind: kind, c: c, seed: cf.Seed, n: cf.N, handoff: make(chan *handle, 4)}
+	rd.def = definedWires(c)
+	nin := c.Inputs.Size()
+	rd.x = make([]bool, nin)
+	for i := range rd.x {
+		rd.x[i] = r.Bool()
+	}
+	rd.ref = hxlib.RefEval(c, rd.x)
+	n0 := int(c.Inputs[0].Type.Bits)
+	rd.inputs = []*big.Int{bitsToBig(rd.x[:n0]), bitsToBig(rd.x[n0:])}
+
+	// single-goroutine reference results, on an independent Circuit value so
+	// that the shared one is untouched until the goroutines start
+	ref := cloneCircuit(c)
+	njobs := 2 + r.Intn(5)
+	keySizes := []int{16, 24, 32}
+	refOK := true
+	for j := 0; j < njobs; j++ {
+		jb := &job{tape: r.Bytes(16 * (1 + nin)), key: r.Bytes(keySizes[r.Intn(3)])}
+		func() {
+			defer func() {
+				if e := recover(); e != nil {
+					refOK = false
+					o.Fail("c17-reference-panic", map[string]any{"round": idx, "panic": fmt.Sprint(e)})
+				}
+			}()
+			g, err := ref.Garble(&hxlib.Tape{Data: jb.tape}, jb.key)
+			if err != nil {
+				refOK = false
+				o.Fail("c17-reference-error", map[string]any{"round": idx, "err": err.Error()})
+				return
+			}
+			jb.exp = digestGarbled(g, rd.def)
+			ws := make([]ot.Label, c.NumWires)
+			for i := 0; i < nin; i++ {
+				ws[i] = circuit.LabelForBit(g.Wires[i], rd.x[i])
+			}
+			if err := ref.Eval(jb.key, ws, g.Gates); err != nil {
+				refOK = false
+				o.Fail("c17-reference-error", map[string]any{"round": idx, "err": err.Error()})
+				return
+			}
+			jb.eval = digestLabels(ws, rd.def)
+			g.Release()
+		}()
+		rd.jobs = append(rd.jobs, jb)
+	}
+	if !refOK {
+		return nil
+	}
+	return rd
 }
 
 func after(s, key string) string {
